@@ -17,6 +17,8 @@
     * cell values are opaque tokens (`Val`): no arithmetic is modelled.
     * pandas `df[name] = ndarray`: positional assignment, the index is untouched, raises ValueError when
       the length differs from the number of rows (as documented by pandas; sampled by the harness).
+      Not modelled: on a frame without rows pandas accepts values of any length and re-indexes the
+      frame — only reachable with a converter that breaks its contract (one value per row).
     * the callable dispatcher form is a function `Str → Option Str` (assumed not to raise).
 -/
 import PdtModel.Model.Text
